@@ -132,6 +132,157 @@ def inf_check(spec_kw, inst):
                 c.prove(base + ":ensures:operand-kinds" + tag, call["kinds"] == ["spline4"] * nx + ["spline3", "value"])
 
 
+# ---------------------------------------------------------------------------------------------------------------
+# contract of the spline algebra itself (the REAL rockit/splines/spline.py on the casadi model): discharges A-BSPLINE-ALG
+# ---------------------------------------------------------------------------------------------------------------
+def bern_poly(coeffs, d, s):
+    """sum_i c_i C(d,i) s^i (1-s)^(d-i) as a z3 term in the variable s"""
+    coeffs = ca.MX(coeffs)
+    tot = z3.RealVal(0)
+    for i in range(d + 1):
+        tot = tot + ca.tz(coeffs.e[i]) * z3.RealVal(comb(d, i)) * (s ** i if i else z3.RealVal(1)) * ((1 - s) ** (d - i) if d - i else z3.RealVal(1))
+    return tot
+
+
+def _is_bernstein(basis, d):
+    k = [float(x) for x in basis.knots]
+    return basis.degree == d and k == [0.0] * (d + 1) + [1.0] * (d + 1)
+
+
+def _sym_spline(name, d):
+    from rockit.splines.spline import BSpline, BSplineBasis
+    c = ca.MX.sym(name, d + 1)
+    return BSpline(BSplineBasis([0] * (d + 1) + [1] * (d + 1), d), c), c
+
+
+def algebra_op(opname, p, q=None):
+    """one operation of the real BSpline class on Bernstein-form operands with SYMBOLIC coefficients: the result is in
+    Bernstein form of the stated degree and represents exactly (up to the rounding of the numeric basis transformation,
+    tolerance 1e-9 on every monomial coefficient) the polynomial op(a, b)  --  for ALL coefficient values."""
+    c = ctx()
+    s = z3.Real("s")
+    a, ca_ = _sym_spline("a", p)
+    pa = bern_poly(ca_, p, s)
+    b = cb = pb = None
+    if q is not None:
+        b, cb = _sym_spline("b", q)
+        pb = bern_poly(cb, q, s)
+    w = ca.MX.sym("w")
+    base = "splines.spline:BSpline.%s:ensures[%s]" % (opname, "p=%d" % p + (",q=%d" % q if q is not None else ""))
+    try:
+        if opname == "__add__":
+            r, want, d = a + b, pa + pb, max(p, q)
+        elif opname == "__sub__":
+            r, want, d = a - b, pa - pb, max(p, q)
+        elif opname == "__mul__":
+            r, want, d = a * b, pa * pb, p + q
+        elif opname == "__pow__2":
+            r, want, d = a ** 2, pa * pa, 2 * p
+        elif opname == "__pow__3":
+            r, want, d = a ** 3, pa * pa * pa, 3 * p
+        elif opname == "__neg__":
+            r, want, d = -a, -pa, p
+        elif opname == "__mul__number":
+            r, want, d = a * 2.5, pa * z3.RealVal("5/2"), p
+        elif opname == "__rmul__DM":
+            r, want, d = ca.DM(0.5) * a, pa * z3.RealVal("1/2"), p
+        elif opname == "__rmul__symbol":
+            r, want, d = w * a, ca.tz(w.e[0]) * pa, p
+        elif opname == "__add__number":
+            r, want, d = a + 1.5, pa + z3.RealVal("3/2"), p
+        elif opname == "__radd__symbol":
+            r, want, d = w + a, ca.tz(w.e[0]) + pa, p
+        elif opname == "__rsub__number":
+            r, want, d = 2.0 - a, z3.RealVal(2) - pa, p
+        elif opname == "derivative":
+            r, d = a.derivative(), p - 1
+            want = None
+        else:
+            raise ValueError(opname)
+    except Exception as e:
+        c.fail(base + ":no-exception", "%s: %s" % (type(e).__name__, str(e)[:200]))
+        return
+    ok = _is_bernstein(r.basis, d) and ca.MX(r.coeffs).numel() == d + 1
+    c.prove(base + ":result-is-in-bernstein-form-of-degree-%d" % d, ok, detail="degree %s, knots %s, %d coefficients" % (r.basis.degree, [float(x) for x in r.basis.knots], ca.MX(r.coeffs).numel()))
+    if not ok:
+        return
+    got = bern_poly(r.coeffs, d, s)
+    if opname == "derivative":
+        # d/ds of sum a_i B_i^p  --  written out: sum a_i C(p,i) (i s^(i-1) (1-s)^(p-i) - (p-i) s^i (1-s)^(p-i-1))
+        want = z3.RealVal(0)
+        for i in range(p + 1):
+            t1 = z3.RealVal(i) * (s ** (i - 1) if i > 1 else z3.RealVal(1)) * ((1 - s) ** (p - i) if p - i else z3.RealVal(1)) if i else z3.RealVal(0)
+            t2 = z3.RealVal(p - i) * (s ** i if i else z3.RealVal(1)) * ((1 - s) ** (p - i - 1) if p - i > 1 else z3.RealVal(1)) if p - i else z3.RealVal(0)
+            want = want + ca.tz(ca_.e[i]) * z3.RealVal(comb(p, i)) * (t1 - t2)
+    nlp.prove_close(base + ":represents-the-exact-polynomial", ca.MX._raw(1, 1, [got]), ca.MX._raw(1, 1, [want]), bernstein=(s, d))
+
+
+def algebra_cmp(opname, p, q):
+    """comparison operators hand back coefficient-wise comparisons on a COMMON Bernstein basis: lhs_i - rhs_i are the
+    Bernstein coefficients of a - b (so rows <= 0 bound a - b on the whole of [0,1] by the convex-hull lemma)"""
+    c = ctx()
+    s = z3.Real("s")
+    a, ca_ = _sym_spline("a", p)
+    pa = bern_poly(ca_, p, s)
+    w = ca.MX.sym("w")
+    if q is None:
+        other, pb, d = w, ca.tz(w.e[0]), p
+    elif q == "number":
+        other, pb, d = 2.0, z3.RealVal(2), p
+    else:
+        b, cb = _sym_spline("b", q)
+        other, pb, d = b, bern_poly(cb, q, s), max(p, q)
+    base = "splines.spline:BSpline.%s:ensures[p=%d,q=%s]" % (opname, p, q)
+    try:
+        r = {"__le__": lambda: a <= other, "__ge__": lambda: a >= other, "__lt__": lambda: a < other, "__gt__": lambda: a > other,
+             "reflected-le": lambda: other <= a}[opname]()
+    except Exception as e:
+        c.fail(base + ":no-exception", "%s: %s" % (type(e).__name__, str(e)[:200]))
+        return
+    r = ca.MX(r)
+    deps = getattr(r, "_deps", None)
+    if deps is None or r.numel() != d + 1:
+        c.fail(base + ":result-is-one-comparison-per-coefficient", "%d entries, comparison structure %s (expected %d rows)" % (r.numel(), "present" if deps else "absent", d + 1))
+        return
+    c.ok(base + ":result-is-one-comparison-per-coefficient", detail="%d rows" % r.numel(), backend="z3")
+    lo, hi = ca.MX(deps[0]), ca.MX(deps[1])          # lo <= hi  (>= is represented swapped)
+    lo = ca.repmat(lo, d + 1, 1) if lo.numel() == 1 else lo
+    hi = ca.repmat(hi, d + 1, 1) if hi.numel() == 1 else hi
+    got = bern_poly(hi - lo, d, s)
+    small_minus_big = {"__le__": pb - pa, "__lt__": pb - pa, "__ge__": pa - pb, "__gt__": pa - pb, "reflected-le": pa - pb}[opname]
+    nlp.prove_close(base + ":rows-are-bernstein-coefficients-of-the-difference", ca.MX._raw(1, 1, [got]), ca.MX._raw(1, 1, [small_minus_big]), bernstein=(s, d))
+    c.prove(base + ":strictness", r._op == ("lt" if opname in ("__lt__", "__gt__") else "le"))
+
+
+def algebra_tasks(tier):
+    out = []
+    D = range(1, 9) if tier == "thorough" else (1, 2, 3, 4, 8)
+    pairs = [(p, q) for p in D for q in D if p + q <= (16 if tier == "thorough" else 12)]
+    def T(label, fn):
+        import re
+        m = re.match(r"(.*)\[(\d+)(?:,(\w+))?\]$", label)
+        q = m.group(3)
+        rp = dict(harness="spline_probe", op=m.group(1), p=int(m.group(2)), q=(int(q) if q and q.isdigit() else (None if q in (None, "None") else q)))
+        out.append(Task("C15/algebra/" + label, fn, kind="bounded", replay=rp, functions=["splines.spline:BSpline", "splines.spline:BSplineBasis", "splines.spline:Basis"],
+                        bound=dict(degrees="Bernstein operands of the listed degrees", coefficients="symbolic (all values)", tolerance=1e-9)))
+    for p, q in pairs:
+        for op in ("__add__", "__sub__", "__mul__"):
+            T("%s[%d,%d]" % (op, p, q), lambda op=op, p=p, q=q: algebra_op(op, p, q))
+        for op in ("__le__", "__ge__"):
+            T("%s[%d,%d]" % (op, p, q), lambda op=op, p=p, q=q: algebra_cmp(op, p, q))
+    for p in D:
+        for op in ("__pow__2", "__neg__", "__mul__number", "__rmul__DM", "__rmul__symbol", "__add__number", "__radd__symbol", "__rsub__number", "derivative"):
+            if op == "derivative" and p < 2:
+                continue
+            T("%s[%d]" % (op, p), lambda op=op, p=p: algebra_op(op, p))
+        if p <= 4:
+            T("__pow__3[%d]" % p, lambda p=p: algebra_op("__pow__3", p))
+        for op in ("__le__", "__ge__", "__lt__", "__gt__", "reflected-le"):
+            for q in (None, "number"):
+                T("%s[%d,%s]" % (op, p, q), lambda op=op, p=p, q=q: algebra_cmp(op, p, q))
+    return out
+
+
 def lemmas():
     c = ctx()
     a = [z3.Real("a%d" % j) for j in range(5)]
@@ -189,6 +340,7 @@ def tasks(tier):
                 kw = dict(method=meth, N=N, M=M, grid=dict(g), T=Tk, t0=("unknown",), ode=E("f", None, ("x", "u", "t")), **extra)
                 out.append(Task(inst, lambda kw=kw, inst=inst: inf_check(kw, inst), kind="bounded", bound=dict(method=meth, N=N, M=M, grid=g, T=list(Tk)),
                                 replay=dict(harness="inf_probe", method=meth, N=N, M=M, grid=g)))
+    out.extend(algebra_tasks(tier))
     out.append(Task("C15/rejected/expl_euler", lambda: other_degrees_rejected("MS-expl_euler", dict(method="MS", intg="expl_euler")), kind="bounded", bound=dict(scheme="expl_euler")))
     out.append(Task("C15/rejected/DC-degree-2", lambda: other_degrees_rejected("DC-degree-2", dict(method="DC", degree=2)), kind="bounded", bound=dict(scheme="collocation degree 2")))
     return out
